@@ -861,6 +861,7 @@ impl<'a> V<'a> {
             }
         }
         self.out.extend(found);
+        self.dont_care.extend(open_points);
     }
 
     fn coerce_variables(&mut self) {
